@@ -30,10 +30,11 @@ CLAIMED = {
              "satisfy F^H F = I, IFFT = FFT^H, ifft(fft x) = x, norm preservation, 1/n backward scaling, Kronecker structure over "
              "axes; centred oshape = transform of the centre-padded/cropped input (reusing C09 resize theorems). Tie: Gen/Fourier.lean "
              "regenerated every run + exact comparison of quantised (phase, squared magnitude) matrix columns of the real "
-             "fft/ifft/FFT/IFFT with the model's table.",
+             "fft/ifft/FFT/IFFT with the model's table."
+             " Deepened: the n-fold Kronecker structure is proved for every rank, shape and axes subset (fftn_matrix_entry, fftn_unitary, fftn_unitary_flat, ifftn_eq_conjTranspose, ifftn_fftn_id, fftn_norm_preserved), negative spellings / orderings of the same axis set give the same matrix (axes_normalised_distinct, spellings_same_matrix), the executable table the driver compares with sigpy denotes that matrix (entry_denote, table_eq, sigpy_fft_unitary), and centred oshape = F_Nd(resize(x)) in N dimensions (fft_oshape_eq_fftn_resize, via C09's N-d resize specification); the streams feed C / Fortran / strided / negative-stride layouts, all input dtypes, and same-shape call sequences with different (axes, centre, norm) settings.",
         note="Trusted: Lean kernel; translator gen_c05; numpy fftn/ifftn/roll contract written by hand in Model/C05.lean and "
              "validated by the quantised correspondence; IEEE rounding not modelled (1e-5 / 1e-10 tolerances when quantising); "
-             "n-fold Kronecker induction over an arbitrary axes list is validated, the 2-factor step is proved.",
+             "numpy's 1-D fftn/ifftn/roll contract stays validated by correspondence.",
         technique="Lean 4 proof over translator-generated pipeline + exact quantised differential correspondence",
         design="DESIGN.md §3 C05, §9"),
     "C03": dict(
@@ -157,7 +158,8 @@ CLAIMED = {
              "and runUpd_acc_eq_sum (so coincident / wrapped contributions add), transpose_pairing, shift-by-period invariance, "
              "spline_kernel_doc / spline2_breakpoint (orders 0,1,2 equal the documented piecewise polynomials, zero outside [-1,1]). "
              "Tie: Gen files regenerated every run + exact correspondence on dyadic coordinates / widths (basis matrices, bitwise "
-             "gridding = interpolate^T), Python wrappers by correspondence.",
+             "gridding = interpolate^T), Python wrappers by correspondence."
+             ' Deepened: the Python wrappers interpolate / gridding are translator-generated statement by statement (Gen/InterpWrappers.lean: ndim, batch/points shapes, every reshape target, scalar-vs-sequence width/param broadcasting, dispatch index and kernel tables, output reshape) with interpolateW_spec / griddingW_spec / wrapper_spec; the executable array semantics is linked to the function-level one (applyUpd_eq_runUpd, applyUpd_eq_sum), so interpolate_value_spec / gridding_value_spec hold for what the driver runs.',
         note="Trusted: Lean kernel; translator; Python wrappers (batch flattening, scalar/per-axis broadcasting) and applyUpd vs "
              "runUpd tied by correspondence; the Kaiser-Bessel kernel has no rational model: its update structure is compared "
              "exactly (driver emits kernel arguments, harness multiplies sigpy's own kernel values) and its values are checked "
@@ -337,9 +339,10 @@ CLAIMED = {
              "algorithm couples never increases), pdhg_accel_steps_primal/dual and pdhg_accel_run_primal (theta = 1/sqrt(1+2 gamma "
              "step), tau sigma invariant, min tracked along the whole run). Tie: translator (statement census, order and branch "
              "conditions pinned) + the REAL classes stepped over exact rationals (sqrt values logged and checked at 1e-15) and "
-             "compared after every update, float stream for l1, identity of the caller's arrays.",
+             "compared after every update, float stream for l1, identity of the caller's arrays."
+             ' Deepened: array-valued (diagonal) steps - IsProxW (prox in the T^-1-weighted inner product = what an elementwise prox with an array step computes), pdhg_fixed_point_iff_saddle_diag, pdhg_fejer_diag / _monotone / pdhg_fejer_run_diag under MetricPSD (2|<Ax,u>| <= <T^-1 x,x> + <Sigma^-1 u,u>; = tau sigma ||A||^2 <= 1 for scalars: metricPSD_scalar), metricPSD_pock_chambolle (the condition holds for the diagonal-preconditioning steps the harness generates), pdhg_residual_rate_partial (D_N + sum R_k <= D_0, some R_j <= D_0/N: asymptotic regularity at rate 1/N, NOT convergence to the minimiser).',
         note="Trusted: Lean kernel; translator gen_c13; NOT proved: convergence of the PDHG iterates to the minimiser (with or without "
-             "acceleration) and Fejer monotonicity for array-valued steps - decided by the search oracle on planted-solution "
+             "acceleration) - decided by the search oracle on planted-solution "
              "instances (incl. Nesterov's tridiagonal); __init__ values, in-place updates, resid and floating point are tied by "
              "correspondence only.",
         technique="Lean 4 proof (ISTA/FISTA rates, PDHG saddle fixed points and Fejer monotonicity) over translator-generated updates",
@@ -353,7 +356,8 @@ CLAIMED = {
              "leaves the solution unchanged - for the repaired residuals), pdhg_primal_only_not_fixed / gm_accel_x_only_not_fixed "
              "(exact rational witnesses that the pinned residuals did NOT have the property); power_monotone, power_normalised, "
              "power_le_bound. Tie: translator + counter/done traces of 9 classes and App.run under random done()/update() "
-             "interleavings up to max_iter+2, PDHG / GradientMethod stepped against the Lean transcription.",
+             "interleavings up to max_iter+2, PDHG / GradientMethod stepped against the Lean transcription."
+             " Deepened: the PDHG residual formulas and Newton's residual are translator-generated (Gen/C15Resid.lean), C15's PDHG step is C13's generated step; early_stop_fixed_pdhg_general (any gamma_primal, gamma_dual, theta, scalar or array steps: resid <= 0 => saddle point => the next update with the rescaled steps changes neither x nor u), early_stop_fixed_newton_ls (backtracking line search), pdRescale_steps_pos.",
         note="Trusted: Lean kernel; translator gen_c15; PDHG step-size adaptation (gamma > 0), array-valued steps, Newton line search "
              "and SDMM traces are not modelled (search oracle only); power_le_bound takes an operator bound L (lambda_max = ||A|| is "
              "checked numerically); the extra-update comparison for GerchbergSaxton uses 1e-10 (its least-squares re-solve "
